@@ -3,6 +3,7 @@
 # applies a one-line mutation, runs govc under a hard time limit, always restores the file.
 f="$1"; old="$2"; new="$3"; re="$4"
 cd /repo || exit 2
+if [ -n "$(git status --porcelain)" ]; then echo "refusing: /repo has uncommitted changes"; exit 2; fi
 trap 'git -C /repo checkout -- "$f"' EXIT
 python3 - "$f" "$old" "$new" <<'PY'
 import sys
